@@ -272,7 +272,9 @@ int main(int argc, char** argv) {
   for (auto& s : catalogue()) if (!s.fixture) SOLS.push_back(s.name);
   // pool of 32 points: 16 in (0.1,1.9)^4, 8 in (-2,2)^4, 8 with coordinates spread over three decades 10^U(-3,0) (thin layers next to a wall / an axis)
   // and one coordinate exactly 0 in two of them; all double-representable so both precisions see the same arguments
-  { int k = 0; for (auto& p : POOL) { for (auto& c : p) c = (long double)(double)(k < 16 ? r.uni(0.1L, 1.9L) : k < 24 ? r.uni(-2.0L, 2.0L) : powl(10.0L, r.uni(-3.0L, 0.0L))); if (k >= 30) p[r.below(4)] = 0; k++; } }
+  { int k = 0; for (auto& p : POOL) { for (auto& c : p) c = (long double)(double)(k < 16 ? r.uni(0.1L, 1.9L) : k < 24 ? r.uni(-2.0L, 2.0L) : powl(10.0L, r.uni(-3.0L, 0.0L))); if (k >= 30) p[r.below(4)] = 0; k++; }
+    // eight of the generic points are copies of another pool point with exactly ONE coordinate changed (same place at another time, same x-y at another z, ...)
+    for (int j = 0; j < 8; j++) { for (int c = 0; c < 4; c++) POOL[8 + j][c] = POOL[j % 4][c]; POOL[8 + j][j % 4] = (long double)(double)r.uni(0.1L, 1.9L); if (j >= 4) POOL[8 + j][3 - j % 4] = POOL[8 + j][j % 4]; } }
   g_allow_wild = false;
   Model<double> m; Ops<double> o(m); CSide c(m, o);
   for (auto& w : c.W) if (!w.fn) hviol(PROP, "wrapper-missing:" + w.cname, "the library no longer defines " + w.cname);
